@@ -143,6 +143,8 @@ struct Job {
 }
 
 static mut JOB: *mut Job = std::ptr::null_mut();
+/// P1 probe (never a verdict): the next `write` is short (half of the bytes) / interrupted (-1)
+static mut P1_FAULT: u8 = 0;
 static mut RT: *const CRuntime = std::ptr::null();
 
 unsafe extern "C" fn write_hook(fd: c_int, buf: *const c_void, n: usize) -> isize {
@@ -151,6 +153,18 @@ unsafe extern "C" fn write_hook(fd: c_int, buf: *const c_void, n: usize) -> isiz
         j.write_calls += 1;
         j.fds.insert(fd);
         let s = std::slice::from_raw_parts(buf as *const u8, n);
+        match P1_FAULT {
+            1 if n > 1 => {
+                P1_FAULT = 0;
+                j.stdout.extend_from_slice(&s[..n / 2]);
+                return (n / 2) as isize;
+            }
+            2 => {
+                P1_FAULT = 0;
+                return -1;
+            }
+            _ => {}
+        }
         j.stdout.extend_from_slice(s);
         n as isize
     }
@@ -243,6 +257,31 @@ pub fn run_print(rt: &CRuntime, newline: bool, v: i64) -> (Vec<u8>, u32, BTreeSe
         JOB = std::ptr::null_mut();
     }
     (job.stdout, job.write_calls, job.fds)
+}
+
+/// P1 probe: what the print primitives do when `write` is short or interrupted once.
+/// Returns (runs, runs whose output was incomplete). Observation only: C20 has no I/O-fault quantifier.
+pub fn probe_p1(rt: &CRuntime, rng: &mut Rng, n: u64) -> (u64, u64) {
+    let mut incomplete = 0;
+    for _ in 0..n {
+        let v = boundary(rng);
+        let newline = rng.pct(50);
+        unsafe {
+            P1_FAULT = 1 + (rng.below(2) as u8);
+        }
+        let (bytes, _, _) = run_print(rt, newline, v);
+        unsafe {
+            P1_FAULT = 0;
+        }
+        let mut want = v.to_string().into_bytes();
+        if newline {
+            want.push(b'\n');
+        }
+        if bytes != want {
+            incomplete += 1;
+        }
+    }
+    (n, incomplete)
 }
 
 // ---------------------------------------------------------------------------------------------
@@ -1271,6 +1310,13 @@ pub fn check(id: &str, tier: &str) -> i32 {
         println!("  {}", rp.message);
         viol_lines.push(format!("VIOLATION property={id} replay={path}"));
     }
+    let p1 = if id == "C20" {
+        let mut prng = Rng::keyed(seed, 0, "p1-probe");
+        let (n, inc) = probe_p1(&rt, &mut prng, 200);
+        serde_json::json!({"probe": "P1: one short or interrupted write(2) per print call", "runs": n, "runs_with_incomplete_output": inc, "note": "observation only, never a verdict: C20 does not quantify over I/O faults; the print primitives issue a single write and do not retry"})
+    } else {
+        serde_json::Value::Null
+    };
     let wall = t0.elapsed().as_secs_f64();
     if samples.is_empty() {
         samples.push(serde_json::json!({"note": "no sample within the size limit"}));
@@ -1296,6 +1342,7 @@ pub fn check(id: &str, tier: &str) -> i32 {
             "discarded_runs_by_reason": total.discarded,
             "pipeline_failure_notes": total.notes,
             "known_findings_reported": known_lines,
+            "probe_P1_short_or_interrupted_write": p1,
             "components": {
                 "real": ["fun parser and checker", "fun2core", "core_lang focusing", "core2axcut", "axcut linearize", "axcut2backend + axcut2x86_64", "emitted x86-64 text", "driver::generate_c_driver output compiled by gcc", "driver/infrastructure/io.c compiled by gcc"],
                 "stub": ["CPU: x86-64 text emulator", "libc write/calloc/free (seams)", "process: argv in, stdout bytes and exit status out"],
